@@ -124,3 +124,23 @@ def o02_7(tier):
         for v in ((1, 2) if tier == "quick" else (1, 2, 3)):
             out.append((f"{shape}~v{v},k=1,ignore_four=False", mk(f"{shape}~v{v}", 1, False)))
     return out
+
+
+@obligation("O02.8", ["C02", "C10", "C16"], UNITS[:2] + UNITS[5:6],
+            "two builds on the same frame: a system built with an angle limit that excludes interfaces leaves the frame untouched, so a later default build "
+            "has again one unknown per internal interface and the equations of every junction", tier="Pn")
+def o02_8(tier):
+    def mk(shape):
+        def h(ctx):
+            m, fr, cycles, info, _ = build(ctx, shape, 1)
+            u = versor_by_contract(ctx, fr)
+            first = force_matrix(ctx, fr, False, angle_limit=0.0)        # every junction opens by >= 0: everything with two flagged ends is excluded
+            n_first = len(ctx.list_of(ctx.get(first, "big_edges_to_use")))
+            second = force_matrix(ctx, fr, False)
+            cols = [ctx.list_of(c) for c in ctx.list_of(ctx.get(second, "big_edges_to_use"))]
+            ctx.ensure(n_first < len(info["internal"]), "the first build did exclude interfaces (the scenario is the intended one)")
+            ctx.ensure(len(cols) == len(info["internal"]) and all(sum(1 for c in cols if same_path(c, p)) == 1 for p in info["internal"]),
+                       "second (default) build: one unknown per internal interface")
+            ctx.ensure(sorted(ctx.keys(ctx.get(second, "map_vid_to_row"))) == sorted(info["junction_rows"]), "second build: equations for every junction")
+        return h
+    return [(s, mk(s)) for s in ("double_y", "tri_star")]
